@@ -54,6 +54,21 @@ def _readback(spec_obj, dsg):
     return wired
 
 
+def _architecture_nodes(spec_obj, dsg, nodes):
+    """All node labels of the instance, minus everything that is only reachable from a left-over selection-choice node
+    (unchosen options of an unresolved choice and what they derive) and is not confirmed from the start nodes."""
+    from adsg_core.graph.adsg_nodes import SelectionChoiceNode
+    import networkx as nx
+    left = [n for n in dsg.graph.nodes if isinstance(n, SelectionChoiceNode)]
+    if not left:
+        return set(nodes)
+    confirmed = _closure_from_wiring(spec_obj, _readback(spec_obj, dsg)) & set(nodes)
+    below = set()
+    for c in left:
+        below |= {gen_dsg.label(x) for x in nx.descendants(dsg.graph, c)}
+    return (set(nodes) - below) | confirmed
+
+
 def _closure_from_wiring(spec_obj, wired):
     by_origin = {}
     for o, t in wired:
@@ -203,15 +218,18 @@ def check_final(prop, spec_obj, dsg, made, log, directed=None):
             sym = []
             if [n for n in dsg.graph.nodes if isinstance(n, SelectionChoiceNode)]:
                 sym.append('choice-node-left')
-            if spec_obj.conflict(nodes):
+            confirmed = _architecture_nodes(spec_obj, dsg, nodes)
+            if spec_obj.conflict(confirmed):
                 raise Viol(f'{prop}/incompatible-pair-in-feasible',
-                           f'{spec_obj.conflict(nodes)} both present in a result reported feasible (decisions {made})')
+                           f'{spec_obj.conflict(confirmed)} both present in a result reported feasible (decisions {made})')
             raise Viol(f'{prop}/inadmissible-reported-feasible',
                        f'decisions {made} have no admissible completion (every closure contains an incompatible pair) '
                        f'but the result is reported feasible; nodes {sorted(nodes)} symptoms {sym}')
     if prop != 'C02':
-        # C06 states nothing about the closure itself (that is C02): only the incompatibility clauses apply
-        pair = spec_obj.conflict(nodes)
+        # C06 states nothing about the closure itself (that is C02): only the incompatibility clauses apply. All nodes of
+        # the instance count, except what merely hangs below a selection-choice node that was (wrongly - C02's clause)
+        # left unresolved: its unchosen options are not part of the architecture.
+        pair = spec_obj.conflict(_architecture_nodes(spec_obj, dsg, nodes))
         if pair:
             raise Viol(f'{prop}/incompatible-pair-in-feasible', f'{pair} both present in a result reported feasible')
         return {'feasible': True, 'nodes': nodes, 'wired': _readback(spec_obj, dsg), 'edges': gen_dsg.observe_edges(dsg)}
